@@ -25,7 +25,7 @@ n = 0
 for f in [os.path.join(V, 'known_findings.json')] + sorted(glob.glob(os.path.join(V, 'known_findings.d', '*.json'))):
     for e in json.load(open(f)).get('findings', []):
         n += 1
-        out.append('* **%s** %s - witness pattern `%s`: %s\n' % (e['property'], e.get('clause', '(any clause)'), json.dumps(e.get('match', {})), e.get('what', '')))
+        out.append('* **%s**%s %s - witness pattern `%s`: %s\n' % (e['property'], ' (extra specification, section 16)' if e['property'].startswith('X') else '', e.get('clause', '(any clause)'), json.dumps(e.get('match', {})), e.get('what', '')))
 if not n:
     out.append('(none)\n')
 res = os.path.join(V, 'seeded', 'RESULTS.md')
@@ -36,5 +36,12 @@ for f in sorted(glob.glob(os.path.join(V, 'design.d', '*.md'))):
     body = open(f).read().strip()
     body = re.sub(r'^(#+) ', lambda m: '##' + m.group(1) + ' ', body, flags=re.M)   # demote headings
     out.append('\n' + body + '\n')
+ex = sorted(glob.glob(os.path.join(V, 'extras', 'X*.md')))
+if ex:
+    out.append('\n## 16. Specifications beyond the listed properties (extras)\n\n' + open(os.path.join(V, 'extras', 'README.md')).read().split('\n', 1)[1].strip() + '\n')
+    for f in ex:
+        body = open(f).read().strip()
+        body = re.sub(r'^(#+) ', lambda m: '##' + m.group(1) + ' ', body, flags=re.M)
+        out.append('\n' + body + '\n')
 open(p, 'w').write(''.join(out))
 print('DESIGN.md rebuilt: %d bytes' % len(''.join(out)))
